@@ -380,10 +380,14 @@ def _failure(d, u):
         # the generated line itself may carry a `//: label props` comment (loop invariants)
         for s in sorted(spans, key=lambda s: not s.get('is_primary')):
             if s.get('file_name', '').endswith(u.name + '.rs') and 1 <= s['line_start'] <= len(u.lines):
-                lb_, pr_ = parse_label(u.lines[s['line_start'] - 1].text)
-                if lb_:
-                    label = lb_
-                    props = pr_ if pr_ else props
+                # a clause spanning several lines carries its label on one of them (usually the last)
+                for k2 in range(s['line_start'], min(s.get('line_end', s['line_start']), len(u.lines)) + 1):
+                    lb_, pr_ = parse_label(u.lines[k2 - 1].text)
+                    if lb_:
+                        label = lb_
+                        props = pr_ if pr_ else props
+                        break
+                if label:
                     break
     if label is None:
         # a trait-level postcondition (`ensures r.nview() == Self::from_view(x)`): the obligation is
